@@ -48,11 +48,29 @@ CLAIMED = {
         "note": "Plugin checks must implement reset() completely.",
         "design_ref": "DESIGN.md section 4, C08",
     },
+    "C13": {
+        "technique": "abstract interpretation of rowio.fixed_rows (incl. nested delimiter automaton and push-back) on every abstract character stream over the class abstraction {CR, LF, other} up to a length bound; oracle = the statement (identity-tracked reproduction of the input, reference segmentation)",
+        "text": "For every stream up to 5 (thorough 7) abstract characters, three width lists and the five delimiter settings: rows have exact widths and reproduce the input with permitted delimiters, or DataFormatError is raised and no well-formed segmentation exists.",
+        "note": "Streams bounded in length; under 'any' CR LF is one delimiter (inputs only well-formed when that LF is data are ambiguous and not compared); read(n) semantics of text streams trusted.",
+        "design_ref": "DESIGN.md section 4, C13",
+    },
     "C14": {
         "technique": "event-trace decision tables of Writer.__init__/write_row/close and the row writers by abstract interpretation (header orderings, validation outcomes, short/exact fixed cells, declared line delimiters)",
         "text": "Validate before emit past the header, nothing emitted for a rejected row, writer usable afterwards, rows emitted unchanged / right-padded with blanks to the width, lines ended by the declared delimiter, close runs end checks and closes the delegate.",
         "note": "Read-back equality is not decided (composition with C12/C13); 0..3 rows per run.",
         "design_ref": "DESIGN.md section 4, C14",
+    },
+    "C18": {
+        "technique": "decision tables of applications.main / process / CutplaceApp.validate / set_options by abstract interpretation over outcome classes of process(), per-file Reader outcomes and --until regions",
+        "text": "Exit-code mapping for every outcome class; every list of 0..3 files over {accepted, rejected row, rejected at end, unreadable}: files attempted in order with a fresh Reader on the shared CID, 1 iff some file rejected, unreadable -> EnvironmentError (3); --until regions mapped to the API limit.",
+        "note": "argparse behaviour trusted; what the API accepts is C04-C08's; that OSError from the readers stays OSError is part of C10's escape analysis.",
+        "design_ref": "DESIGN.md section 4, C18",
+    },
+    "C19": {
+        "technique": "abstract interpretation of SqlFactory.create_table_statement, IntegerFieldFormat.sql_ansi_type and the four dialect ladders over region representatives at every type boundary (both signs) against a frozen capacity table; folded keyword sets",
+        "text": "One column per field in order, dialect keywords quoted, NOT NULL polarity; for all limit pairs from the boundary set the chosen integer/decimal type stores both limits, sizes are digit counts, integer types print no size; decimal/text sizes flow from rule/length.",
+        "note": "ANSI int and Oracle int capacity undecided (implementation-defined); known finding F19a (Transact tinyint for negative limits).",
+        "design_ref": "DESIGN.md section 4, C19",
     },
     "C20": {
         "technique": "call-protocol event traces decided by abstract interpretation of validated / validate_row / Reader.rows / rows / validate / close / Writer with recording plugins; class-resolution tables",
